@@ -9,6 +9,9 @@ import gen
 import histories as H
 
 C01_KEYS = ("parent", "owner", "ids", "registry", "removed")
+TAIL_STEPS = 14      # steps on the implementation alone after a divergence (search for a failing history)
+PROBE_DIVERGENCES = 6   # single-operation campaign: divergences from which every second operation is tried
+PROBE_OPS = 160
 
 
 def setup_runner(ctx, cfg):
@@ -28,9 +31,7 @@ def run_log(ctx, cfg, log, judge):
     fails = []
     steps = []
     for i, op in enumerate(log):
-        if r.dead:
-            break
-        s = r.step(dict(op))
+        s = r.step(dict(op))     # after a divergence the runner goes on with the implementation alone
         steps.append(s)
         for f in judge(s, r):
             fails.append((i, f))
@@ -75,7 +76,10 @@ def history_campaign(ctx, out, judge, *, n_hist, n_steps, profiles, labels_sets,
         log = []
         failed = None
         size_max = 0
-        for i in range(n_steps):
+        diverged_at = None
+        for i in range(n_steps + TAIL_STEPS):
+            if i >= n_steps and diverged_at is None:
+                break
             ti = 0 if ctx.rng.random() < 0.7 else 1
             op = H.random_op(ctx.rng, r.impl, ti, labels=labels, typed=cfg["typed"], malformed=prof.get("malformed", 0.1), ops=prof.get("ops"),
                              did_rate=prof.get("did_rate", 0.15), dids=prof.get("dids", (1001, 1002, "x", "y", 7, 0, "")))
@@ -89,9 +93,12 @@ def history_campaign(ctx, out, judge, *, n_hist, n_steps, profiles, labels_sets,
             if fs:
                 failed = (i, fs[0], s)
                 break
-            if r.dead:
-                # model and implementation diverged without a property failure
-                out.disagree(dict(cfg=pub(cfg), log=log), f"step {i} {H.clean(op)}: {s.problems[:2]}", step=s.as_dict())
+            if r.dead and diverged_at is None:
+                # model and implementation diverged without a property failure: the history goes on for a few steps on the
+                # implementation alone (oracles that need no model), as a search for a concrete failing history
+                out.disagree(dict(cfg=pub(cfg), log=list(log)), f"step {i} {H.clean(op)}: {s.problems[:2]}", step=s.as_dict())
+                diverged_at = i
+            if diverged_at is not None and i - diverged_at >= TAIL_STEPS:
                 break
         key = core.hash_str(json.dumps(log, sort_keys=True, default=str))
         if size_max >= 3 and len(log) >= 3:
@@ -161,6 +168,36 @@ def exhaustive_single_ops(ctx, out, judge, *, max_nodes, alphabet, typed=False, 
                         out.fail(dict(cfg=pub(cfg), log=setup + [H.clean(op)]), f"[{tag}] tree {spec}, op {H.clean(op)}: {text}", step=s.as_dict(), finding=finding)
                     elif s.problems:
                         out.disagree(dict(cfg=pub(cfg), log=setup + [H.clean(op)]), f"tree {spec}, op {H.clean(op)}: {s.problems[:2]}", step=s.as_dict())
+                        # search: from the diverged state, every second operation on the implementation alone
+                        if out.dist["probed_divergences"] < PROBE_DIVERGENCES:
+                            out.dist["probed_divergences"] += 1
+                            try:
+                                ops2 = [o for o in ops_of(r.impl, 0) if o["op"] not in ("w.filter",) and not isinstance(o.get("key"), dict)]
+                            except Exception:  # noqa
+                                ops2 = []
+                            if len(ops2) > PROBE_OPS:
+                                ops2 = ctx.rng.sample(ops2, PROBE_OPS)
+                            for op2 in ops2:
+                                if ctx.time_left() < 5:
+                                    break
+                                r2, _ = setup_runner(ctx, dict(cfg, setup=setup, oracles=False))
+                                r2.step(dict(op))
+                                if not r2.dead:
+                                    break
+                                r2.oracles = True
+                                try:
+                                    s2 = r2.step(dict(op2))
+                                    fs2 = judge(s2, r2)
+                                except core.MachineryError:
+                                    raise
+                                except Exception:  # noqa
+                                    continue
+                                out.evaluations += 1
+                                if fs2:
+                                    tag, text, finding = fs2[0]
+                                    out.fail(dict(cfg=pub(cfg), log=setup + [H.clean(op), H.clean(op2)]),
+                                             f"[{tag}] tree {spec}, ops {H.clean(op)}, {H.clean(op2)}: {text}", step=s2.as_dict(), finding=finding)
+                                    break
     if specs is None:
         c2 = exhaustive_single_ops(ctx, out, judge, max_nodes=max_nodes, alphabet=alphabet, typed=typed, ops_of=ops_of, label_limit=label_limit, specs=EQ_SIBLING_SPECS)
         out.dist["eq_sibling_single_ops"] += c2
@@ -175,6 +212,12 @@ EQ_SIBLING_SPECS = [
     [({"a": 18, "did": 1}, []), ({"a": 19, "did": 2}, []), ({"a": 18, "did": 3}, [({"a": 19, "did": 1}, []), ({"a": 18, "did": 2}, [])])],
     # other data under the id (5) that the source tree's last top node carries
     [({"a": 1, "did": 5}, []), ({"a": 2, "did": 6}, [({"a": 1, "did": 5}, [])])],
+    # collisions at a NON-first position: un-nesting X's children [u, v] next to a sibling v' (refused after u was looked at),
+    # nested clones (a node directly below its clone) with a grandchild that collides one level up, clone groups with children
+    [(0, [(1, []), (2, [])]), (2, [])],
+    [(0, [(0, [(2, [])])]), (2, [])],
+    [(0, [(1, []), (2, [(3, [])])]), (1, [(2, [])]), (3, [])],
+    [(0, [(1, [(2, [])]), (2, [])]), (1, [(0, [])])],
 ]
 
 
